@@ -111,6 +111,34 @@ def linref (line : String) : String :=
         match Driver.parseHex64 d with
         | some d => showP (LinRef.interpolate sq g (fOf d * LinRef.totalLen (LinRef.lineOf sq g)))
         | none => "bad-line"
+      | "X", [a, b] =>
+        -- C++ API `LengthIndexedLine::extractLine(a, b)`: indices from the whole documented domain
+        match Driver.parseHex64 a, Driver.parseHex64 b with
+        | some a, some b =>
+          let ls := (LinRef.extractLine (LinRef.lineOf sq g) (fOf a) (fOf b)).map fun ln => ln.map (LinRef.coordAt g)
+          Driver.joinWith " " (toString ls.length :: ls.flatMap fun l => toString l.length :: l.map showP)
+        | _, _ => "bad-line"
+      | "G", [d] =>
+        -- `LengthLocationMap::getLocation(d)` and `getLength` of that location
+        match Driver.parseHex64 d with
+        | some d =>
+          let l := LinRef.lineOf sq g
+          let a := LinRef.getLocation l (fOf d)
+          toString a.comp ++ " " ++ toString a.seg ++ " " ++ hexF a.frac ++ " " ++ hexF (LinRef.getLength l a)
+        | none => "bad-line"
+      | "F", [x, y] =>
+        -- `LineSegment::segmentFraction` of the first segment of the first line
+        match Driver.parseHex64 x, Driver.parseHex64 y, g with
+        | some x, some y, (p0 :: p1 :: _) :: _ => hexF (LinRef.segmentFraction p0 p1 ⟨fOf x, fOf y⟩)
+        | _, _, _ => "bad-line"
+      | "C", [a] =>
+        -- `LengthIndexedLine::clampIndex(a)` and `isValidIndex(a)`
+        match Driver.parseHex64 a with
+        | some a =>
+          let l := LinRef.lineOf sq g
+          let len := LinRef.totalLen l
+          hexF (LinRef.clampIndex l (fOf a)) ++ " " ++ (if fOf a ≥ 0.0 && fOf a ≤ len then "1" else "0")
+        | none => "bad-line"
       | "S", [a, b] =>
         match Driver.parseHex64 a, Driver.parseHex64 b with
         | some a, some b =>
@@ -213,6 +241,65 @@ def oracle (line : String) : String :=
             if pos.isEmpty then "violated:interpolated-point-off-line"
             else if pos.any (fun a => Float.abs (a - want) ≤ tol) then "ok" else "violated:interpolated-point-at-wrong-distance"
       | _, _, _ => "bad-line"
+    | _ => "bad-line"
+  | "XL" :: r =>
+    -- `LengthIndexedLine::extractLine(a, b)`: a negative index is measured from the end, then both are clamped to
+    -- [0, length]; the result runs along the line from the clamped start to the clamped end
+    match parseLineSet r with
+    | some (ls, a :: b :: "|" :: st :: rest) =>
+      match Driver.parseHex64 a, Driver.parseHex64 b, parseLineSet rest with
+      | some a, some b, some (out, []) =>
+        if st != "ok" then "violated:extract-line-threw" else
+        match scalerFlush (ls.flatten ++ out.flatten) with
+        | none => "violated:non-finite-result"
+        | some (e0, sc) =>
+          let unit := Float.scaleB 1.0 e0
+          let inp := ls.map fun l => l.map sc
+          let o := out.map fun l => l.map sc
+          let segs := inp.flatMap segsOf
+          let L := polyLen inp
+          let m := Float.ofInt (maxAbs ((ls.flatten ++ out.flatten).map sc))
+          let tol := 1e-9 * (m + L)
+          let clamp := fun (d : Float) =>
+            let dU := d / unit
+            let f := if dU < 0 then L + dU else dU
+            if f < 0 then 0 else if f > L then L else f
+          let wa0 := clamp (fOf a)
+          let wb0 := clamp (fOf b)
+          -- `end < start`: the lines are computed from end to start and each one is reversed (their order is kept)
+          let rev := wb0 < wa0
+          let wa := if rev then wb0 else wa0
+          let wb := if rev then wa0 else wb0
+          let o := if rev then o.map List.reverse else o
+          if !(o.flatten.all fun q => !(arcPositions segs q tol).isEmpty) then "violated:substring-vertex-off-line"
+          else if !(Float.abs (polyLen o - Float.abs (wb - wa)) ≤ tol) then "violated:substring-length"
+          else
+            match o.head?.bind (·.head?), o.getLast?.bind (·.getLast?) with
+            | some p0, some p1 =>
+              if !((arcPositions segs p0 tol).any fun x => Float.abs (x - wa) ≤ tol) then "violated:substring-start-not-at-clamped-index"
+              else if !((arcPositions segs p1 tol).any fun x => Float.abs (x - wb) ≤ tol) then "violated:substring-end-not-at-clamped-index"
+              else "ok"
+            | _, _ => if Float.abs (wb - wa) ≤ tol then "ok" else "violated:substring-empty"   -- a zero-length request may yield no line
+      | _, _, _ => "bad-line"
+    | _ => "bad-line"
+  | "CL" :: r =>
+    -- `LengthIndexedLine::clampIndex(a)`: negative = from the end; the result lies in [0, length]
+    match parseLineSet r with
+    | some (ls, [a, "|", v]) =>
+      match Driver.parseHex64 a, Driver.parseHex64 v with
+      | some a, some v =>
+        match scalerFlush ls.flatten with
+        | none => "non-finite"
+        | some (e0, sc) =>
+          let unit := Float.scaleB 1.0 e0
+          let L := polyLen (ls.map fun l => l.map sc)
+          let m := Float.ofInt (maxAbs (ls.flatten.map sc))
+          let tol := 1e-9 * (m + L)
+          let dU := fOf a / unit
+          let f := if dU < 0 then L + dU else dU
+          let want := if f < 0 then 0 else if f > L then L else f
+          if Float.abs (fOf v / unit - want) ≤ tol then "ok" else "violated:clamp-index"
+      | _, _ => "bad-line"
     | _ => "bad-line"
   | "SL" :: r =>
     match parseLineSet r with
